@@ -21,6 +21,7 @@ import (
 	"context"
 	"encoding/json"
 	"fmt"
+	"os"
 	"reflect"
 	"time"
 
@@ -302,23 +303,39 @@ func (s *watchSrc) Watch(_ context.Context, t *dials.Type, args dials.WatchArgs)
 	return nil
 }
 
-func runHistory(in input, mutateDefaults bool) (driver.Result, []string) {
+// genHistory builds, from the case's PRNG state alone, the caller's defaults and
+// every value the two sources will ever return or report (2 + updates values of
+// the pointerified type), with slots of later values aliased to earlier inputs.
+func genHistory(in input) (*HCfg, []reflect.Value, int) {
 	r := coqfmt.NewRng(in.State)
 	cfg := &HCfg{hidden: 7}
 	rty.GenValue(r, reflect.ValueOf(cfg).Elem(), rty.VOpts{NilNum: 1, NilDen: 4}, 0)
 	inputs := []reflect.Value{reflect.ValueOf(cfg)} // pointers to every input value
-	var snaps []string
+	pt := ptrify.Pointerify(reflect.TypeOf(HCfg{}), reflect.ValueOf(cfg).Elem())
 	planted := 0
-	mk := func(t *dials.Type) reflect.Value {
-		p := reflect.New(t.Type())
+	for i := 0; i < 2+in.Updates; i++ {
+		p := reflect.New(pt)
 		rty.GenValue(r, p.Elem(), rty.VOpts{NilNum: r.Intn(4), NilDen: 4}, 0)
 		roots := []reflect.Value{}
 		for _, q := range inputs {
 			roots = append(roots, q.Elem())
 		}
-		// only the new value is written to: put it last and alias its slots to older ones
 		planted += shareInto(r, roots, p.Elem())
 		inputs = append(inputs, p)
+	}
+	return cfg, inputs, planted
+}
+
+func runHistory(in input, mutateDefaults bool) (driver.Result, []string) {
+	cfg, inputs, planted := genHistory(in)
+	var snaps []string
+	next := 1
+	mk := func(t *dials.Type) reflect.Value {
+		p := inputs[next]
+		next++
+		if p.Type().Elem() != t.Type() {
+			panic("c02: pointerified type differs from the one dials hands to sources")
+		}
 		return p.Elem()
 	}
 	ctx, cancel := context.WithCancel(context.Background())
@@ -331,19 +348,14 @@ func runHistory(in input, mutateDefaults bool) (driver.Result, []string) {
 		return driver.Result{Coq: "History [] 0 []", Kind: "history", Direct: []string{"Config failed: " + err.Error()}}, nil
 	}
 	if mutateDefaults {
-		// the caller keeps using (and changing) its own struct after Config returned
+		// the caller keeps using its own struct after Config returned and assigns
+		// new values to its fields (memory it shares with source values is left alone)
 		cfg.Name += "!"
-		cfg.S = append(cfg.S, 42)
+		cfg.S = []int{42}
 		cfg.Sub.N++
-		if cfg.M != nil {
-			cfg.M["mutated"] = []int{1}
-		}
-		if cfg.P != nil {
-			*cfg.P++
-		}
-		if cfg.PS != nil {
-			cfg.PS.N++
-		}
+		cfg.M = map[string][]int{"mutated": {1}}
+		cfg.P = new(int)
+		cfg.PS = &HSub{N: 99}
 	}
 	go func() {
 		for range d.Events() {
@@ -473,25 +485,9 @@ func shareInto(r *coqfmt.Rng, older []reflect.Value, dst reflect.Value) int {
 	return planted
 }
 
-// regenerate replays the generation of the inputs of a history case without
-// dials: same PRNG, same order of draws (Config asks source 0 then source 1
-// for a value, then one value per update).
+// regenerate replays the generation of the inputs of a history case without dials.
 func regenerate(in input) []string {
-	r := coqfmt.NewRng(in.State)
-	cfg := &HCfg{hidden: 7}
-	rty.GenValue(r, reflect.ValueOf(cfg).Elem(), rty.VOpts{NilNum: 1, NilDen: 4}, 0)
-	inputs := []reflect.Value{reflect.ValueOf(cfg)}
-	pt := ptrify.Pointerify(reflect.TypeOf(HCfg{}), reflect.ValueOf(cfg).Elem())
-	for i := 0; i < 2+in.Updates; i++ {
-		p := reflect.New(pt)
-		rty.GenValue(r, p.Elem(), rty.VOpts{NilNum: r.Intn(4), NilDen: 4}, 0)
-		roots := []reflect.Value{}
-		for _, q := range inputs {
-			roots = append(roots, q.Elem())
-		}
-		shareInto(r, roots, p.Elem())
-		inputs = append(inputs, p)
-	}
+	_, inputs, _ := genHistory(in)
 	out := make([]string, len(inputs))
 	for i, q := range inputs {
 		out[i] = graphwalk.Canon(q)
@@ -512,6 +508,9 @@ func run(raw json.RawMessage) driver.Result {
 		} else {
 			for i := range plain {
 				if plain[i] != mutated[i] {
+					if os.Getenv("C02_DEBUG") != "" {
+						fmt.Fprintf(os.Stderr, "A: %s\nB: %s\n", plain[i], mutated[i])
+					}
 					res.Direct = append(res.Direct, fmt.Sprintf("version %d depends on changes the caller made to its defaults AFTER Config returned", i))
 					break
 				}
